@@ -29,6 +29,10 @@ def explore(ctx, depth):
     # records whose operators keep the number of columns while changing which spine each column belongs to
     import gen
     cases += docrun.make_cases(ctx, 0, docs=[gen.shift_doc(ctx.rng) for _ in range(10 if depth == 'quick' else 100)])
+    # one spine split into 3 or 4 sub-spines beside a second spine, then one line with every pattern of `*v` and `*` (n-way joins, several join
+    # groups on one line): what each column belongs to afterwards decides the projection (added after seeded change C06_r5_1)
+    from . import c02
+    cases += docrun.make_cases(ctx, 0, docs=[d for d in c02.join_pattern_docs() if len(d['headers']) == 2])
 
     def sels(case):
         hs = case.adoc['headers']
